@@ -4,6 +4,9 @@ mod c12;
 mod c13;
 mod c14;
 mod c15;
+mod aut;
+mod dom;
+mod autprops;
 mod c16;
 mod json;
 mod out;
@@ -19,7 +22,9 @@ pub enum Tier {
 
 fn main() {
     // panics inside the library are expected results, not noise
-    std::panic::set_hook(Box::new(|_| {}));
+    if std::env::var("PMV_PANIC").is_err() {
+        std::panic::set_hook(Box::new(|_| {}));
+    }
     let args: Vec<String> = std::env::args().collect();
     let prop = args.get(1).cloned().unwrap_or_default();
     let mut tier = Tier::Quick;
@@ -59,6 +64,7 @@ fn main() {
             "c13" => c13::replay(&line, &mut o),
             "c14" => c14::replay(&line, &mut o),
             "c15" => c15::replay(&line, &mut o),
+            "c01" | "c02" | "c03" | "c04" | "c05" | "c06" | "c07" | "c09" => autprops::replay(&line, &mut o),
             "c16" => c16::replay(&line, &mut o),
             _ => panic!("unknown property"),
         }
@@ -68,6 +74,7 @@ fn main() {
             "c13" => c13::run(tier, seed, &mut o),
             "c14" => c14::run(tier, seed, &mut o),
             "c15" => c15::run(tier, seed, &mut o),
+            "c01" | "c02" | "c03" | "c04" | "c05" | "c06" | "c07" | "c09" => autprops::run(&prop, tier, seed, &mut o),
             "c16" => c16::run(tier, seed, &mut o),
             _ => {
                 eprintln!("unknown property {}", prop);
